@@ -75,7 +75,7 @@ Definition obs_ok (r : option net) (o : obs) : bool :=
   match r, o with
   | None, None => true
   | Some n, Some (d, c, k) =>
-      ndesc_eqb (un_net n) d && Bool.eqb (is_consistent n) c
+      ndesc_eqb (un_net n) d && Bool.eqb (is_consistent n) c && Bool.eqb (wf_b n) c
       && (let '(a1, b1, c1) := counts n in let '(a2, b2, c2) := k in
           Nat.eqb a1 a2 && Nat.eqb b1 b2 && Nat.eqb c1 c2)
   | _, _ => false
@@ -135,7 +135,7 @@ Definition check (c : case) : bool :=
   match c with
   | CSeq d c0 steps tb final =>
       let n0 := mk_net d in
-      Bool.eqb (is_consistent n0) c0 &&
+      Bool.eqb (is_consistent n0) c0 && Bool.eqb (wf_b n0) c0 &&
       (let '(ok, n) := run_steps n0 steps in
        ok && match final with
              | None => true
@@ -144,6 +144,8 @@ Definition check (c : case) : bool :=
   | CEin d tb args val dense =>
       let n := mk_net d in
       match as_einsum n, args with Some E, Some o => eargs_eqb E o | None, None => true | _, _ => false end
+      (* the functional form agrees with the port on this network (when it is consistent) *)
+      && (negb (wf_b n) || match as_einsum_spec n, args with Some E, Some o => eargs_eqb E o | None, None => true | _, _ => false end)
       && match contract_einsum (K:=ZI) n (data_fn tb), val with
          | None, None => true
          | Some (v, amap), Some w =>
